@@ -207,8 +207,10 @@ class Funcs:
     def flatten(self, node):
         _h('flatten_func')
         self.flatten_calls += 1
-        ch = node.children
+        ch = node.children if hasattr(node, 'children') else list(node)
         n = len(ch)
+        if not hasattr(node, 'aux'):
+            node = _NoAux
         m = self.malform
         if m is not None:
             if m == 'len1':
@@ -252,15 +254,53 @@ class Funcs:
             rid, aux = metadata.v
         else:
             rid, aux = metadata
-        node = self.cls(children, aux)
+        cls = self.cls
+        if issubclass(cls, tuple):
+            children = list(children)
+            if hasattr(cls, '_fields'):
+                return cls(*children)
+            return cls(tuple(children))
+        node = cls(children, aux)
         node.built_by = (self.rid, rid)
         return node
+
+
+class _NoAux:
+    aux = None
 
 
 def rid_of_metadata(metadata):
     if isinstance(metadata, Meta):
         return metadata.v[0]
     return metadata[0]
+
+
+class MetaHook(type):
+    """Metaclass whose attribute hooks are scenario callbacks (consulted by the engine while it classifies or
+    formats a class during registration)."""
+
+    def __getattr__(cls, name):
+        _h('meta.__getattr__')
+        raise AttributeError(name)
+
+    def __repr__(cls):
+        _h('cls.__repr__')
+        return '<class %s>' % cls.__name__
+
+
+class TM(tuple, metaclass=MetaHook):
+    """tuple subclass with instrumented metaclass: looks like a namedtuple candidate to the engine."""
+
+
+class PM(metaclass=MetaHook):
+    def __init__(self, children=(), aux=None):
+        self.children = list(children)
+        self.aux = aux
+
+
+class NTM(NT1):
+    """namedtuple subclass (registering it triggers the engine's UserWarning)."""
+    __slots__ = ()
 
 
 MALFORMS = ('len1', 'len4', 'noniter', 'entries_len', 'entries_noniter', 'not_tuple')
